@@ -11,8 +11,18 @@ NCPU = 16
 ALLOWED_AXIOMS = {
     'ClassicalDedekindReals.sig_not_dec', 'ClassicalDedekindReals.sig_forall_dec',
     'FunctionalExtensionality.functional_extensionality_dep', 'Classical_Prop.classic',
+    # Coq.Floats.FloatAxioms: the standard library's specification of the primitive binary64 operations (used, through
+    # Flocq's IEEE754.PrimFloat bridge, only by the float-instance theorems: Base/FloatCmp.v, Base/FloatErr.v and their clients)
+    'FloatAxioms.Prim2SF_valid', 'FloatAxioms.SF2Prim_Prim2SF', 'FloatAxioms.Prim2SF_SF2Prim',
+    'FloatAxioms.opp_spec', 'FloatAxioms.abs_spec', 'FloatAxioms.eqb_spec', 'FloatAxioms.ltb_spec', 'FloatAxioms.leb_spec',
+    'FloatAxioms.compare_spec', 'FloatAxioms.classify_spec', 'FloatAxioms.mul_spec', 'FloatAxioms.add_spec', 'FloatAxioms.sub_spec',
+    'FloatAxioms.div_spec', 'FloatAxioms.sqrt_spec', 'FloatAxioms.of_uint63_spec', 'FloatAxioms.of_int63_spec',
+    'FloatAxioms.normfr_mantissa_spec', 'FloatAxioms.frshiftexp_spec', 'FloatAxioms.ldshiftexp_spec',
+    'FloatAxioms.next_up_spec', 'FloatAxioms.next_down_spec',
 }
-PRIMITIVES_OK = re.compile(r'^(float|int|PrimFloat\.|PrimInt63\.|Leibniz\.|Uint63\.|Float|Int63|of_uint63|normfr_mantissa|frshiftexp|ldshiftexp|next_up|next_down|add|sub|mul|div|sqrt|abs|opp|eqb|ltb|leb|compare|classify)')
+# primitive types and operations (Print Assumptions lists them; they are not axioms)
+PRIMITIVES_OK = re.compile(r'^(float|int|of_uint63|of_int63|normfr_mantissa|frshiftexp|ldshiftexp|next_up|next_down|add|sub|mul|div|sqrt|abs|opp|eqb|ltb|leb|compare|classify|'
+                           r'(PrimFloat|PrimInt63|Leibniz|Uint63|Int63)\.[\w.\']+)$')
 
 
 # ----------------------------------------------------------------------------- floats -> Coq
